@@ -800,8 +800,13 @@ def _desugar_factors_with_weights(design: List[Factor],
             if isinstance(f, DerivedFactor):
                 # Uses `replacements`:
                 f.desugar_for_weights(replacements)
+        # A derived factor is replaced by one factor, recorded as a pair of the
+        # same object; it must be listed in the design only once.
+        def replaced(f: Factor) -> List[Factor]:
+            r = replacements.get(f, [f])
+            return r[:1] if len(r) == 2 and r[0] is r[1] else r
         # Returned `replacements` is also used for constraint desugaring
-        return (list(chain.from_iterable([replacements.get(f, [f]) for f in design])),
+        return (list(chain.from_iterable([replaced(f) for f in design])),
                 [[replacements.get(f, [f, f])[1] for f in c] for c in crossings],
                 replacements)
 
